@@ -282,7 +282,9 @@ package tcp
 //@   requires r != nil && len(opts) <= 40 && len(opts) % 4 == 0 && 0 <= data.size && data.size <= 1 << 30
 //@   requires forall(k, 0, len(data.views), len(data.views[k]) <= 65536)
 //@   ensures ghost(tcpSegs) == old(ghost(tcpSegs)) + 1
-//@   ensures ghost(lastTCPFlags) == int(flags) && ghost(lastTCPSeq) == int(uint32(seq)) && ghost(lastTCPAck) == int(uint32(ack))
+//@   ensures ghost(lastTCPFlags) == int(flags)
+//@   ensures ghost(lastTCPSeq) == int(uint32(seq))
+//@   ensures ghost(lastTCPAck) == int(uint32(ack))
 //@   loop 1 invariant -1 <= rangeindex && rangeindex < len(data.views)
 //@   modifies everything(), ghost(tcpSegs), ghost(lastTCPFlags), ghost(lastTCPSeq), ghost(lastTCPAck)
 
@@ -290,10 +292,12 @@ package tcp
 // and the bytes present in the first view, otherwise parsing fails and nothing is read beyond
 // the view. (The caller has checked that at least 20 bytes are present.)
 //@ func (*segment).parse props C07 C03
-//@   requires s != nil && len(s.data.views) >= 1 && len(s.data.views[0]) >= header.TCPMinimumSize
+//@   requires s != nil
+//@   requires len(s.data.views) >= 1
+//@   requires len(s.data.views[0]) >= header.TCPMinimumSize
 //@   ensures result == (int(old(s.data.views[0][12]) >> 4) * 4 >= header.TCPMinimumSize && int(old(s.data.views[0][12]) >> 4) * 4 <= old(len(s.data.views[0])))
-//@   ensures implies(result, s.sequenceNumber == seqnum.Value(be32(old(s.data.views[0]), 4)) && s.ackNumber == seqnum.Value(be32(old(s.data.views[0]), 8))
-//@             && s.flags == old(s.data.views[0][13]) && s.window == seqnum.Size(be16(old(s.data.views[0]), 14)))
+//@   ensures implies(result, s.sequenceNumber == seqnum.Value(old(be32(s.data.views[0], 4))) && s.ackNumber == seqnum.Value(old(be32(s.data.views[0], 8)))
+//@             && s.flags == old(s.data.views[0][13]) && s.window == seqnum.Size(old(be16(s.data.views[0], 14))))
 //@   modifies s.options, s.parsedOptions, s.data.views, s.data.size, elems(s.data.views), s.sequenceNumber, s.ackNumber, s.flags, s.window
 
 // A reset in reply to a segment: exactly one segment, RST|ACK, whose sequence number is the
